@@ -22,9 +22,9 @@ type vCtx struct {
 }
 
 type vCase struct {
-	lit, nat     rlwe.ParametersLiteral
+	lit, nat          rlwe.ParametersLiteral
 	levelQ, levelP, w int
-	name         string
+	name              string
 }
 
 func vCases() []vCase {
@@ -254,4 +254,3 @@ func VerifH_C20_RGSWAlgebra() {
 	}
 	vCover("C20-algebra-reached")
 }
-
